@@ -150,7 +150,7 @@ func main() {
 	if err != nil {
 		panic(err)
 	}
-	cfg := map[string]string{"bits": "8", "imax": "1048576", "pmax": "1048576", "imm": "0", "burst": "0", "rate": "0", "start": "0", "timeout_ms": "1500", "quiet_ms": "25"}
+	cfg := map[string]string{"bits": "8", "imax": "1048576", "pmax": "1048576", "imm": "0", "burst": "0", "rate": "0", "start": "0", "sync_ms": "3600000", "timeout_ms": "1500", "quiet_ms": "25"}
 	var setup []opT
 	var threads []*threadT
 	var schedule []string
@@ -189,7 +189,7 @@ func main() {
 	dir, _ := os.MkdirTemp("", "conc")
 	defer os.RemoveAll(dir)
 	opts := []store.Option{store.IndexBitSize(uint8(atoi("bits"))), store.IndexFileSize(uint32(atoi("imax"))), store.PrimaryFileSize(uint32(atoi("pmax"))),
-		store.GCInterval(time.Hour), store.SyncInterval(time.Hour)}
+		store.GCInterval(time.Hour), store.SyncInterval(time.Duration(atoi("sync_ms")) * time.Millisecond)}
 	if atoi("burst") > 0 {
 		opts = append(opts, store.BurstRate(uint64(atoi("burst"))))
 	}
@@ -206,6 +206,9 @@ func main() {
 	}
 	if rate > 0 {
 		s.VerifSetFlushRate(rate)
+	}
+	if cfg["start"] == "1" {
+		s.Start() // the periodic flusher (Store.run) runs in the background; its goroutine is not scheduled by this driver
 	}
 	byName := map[string]int{}
 	for i, t := range threads {
@@ -249,6 +252,9 @@ func main() {
 			events <- event{i, "start"}
 			<-t.resume
 			t.Start = int(clock.Add(1))
+			logMu.Lock()
+			log = append(log, logged{t.Name, "begin"})
+			logMu.Unlock()
 			t.Res, t.Found, t.Out = exec(s, t.Op)
 			t.End = int(clock.Add(1))
 			logMu.Lock()
@@ -305,12 +311,72 @@ func main() {
 			unfinishedAtFreeRun++
 		}
 	}
+	// C12, first clause: a writer that registered for the flush notice (it passed store.flushTick.beforeWait's registration) is released by
+	// ANY successful Flush call that began afterwards - without the help of a later flush
+	type unrel struct {
+		Writer string `json:"writer"`
+		Flush  string `json:"flush"`
+	}
+	var mustRelease []unrel
+	logMu.Lock()
+	waitAt := map[string]int{}
+	beginAt := map[string]int{}
+	doneAt := map[string]int{}
+	for i, e := range log {
+		switch e.Point {
+		case "store.flushTick.beforeWait":
+			if _, ok := waitAt[e.T]; !ok {
+				waitAt[e.T] = i
+			}
+		case "begin":
+			beginAt[e.T] = i
+		case "done":
+			doneAt[e.T] = i
+		}
+	}
+	logMu.Unlock()
+	for _, w := range threads {
+		wi, waiting := waitAt[w.Name]
+		if !waiting {
+			continue
+		}
+		for _, f := range threads {
+			bi, began := beginAt[f.Name]
+			_, d := doneAt[f.Name]
+			if f.Op.Kind == "flush" && began && d && bi > wi && strings.HasPrefix(f.Res, "ROk") {
+				mustRelease = append(mustRelease, unrel{w.Name, f.Name})
+				break
+			}
+		}
+	}
 	free.Store(true)
 	for _, t := range threads {
 		if t.parked {
 			t.parked = false
 			t.resume <- struct{}{}
 		}
+	}
+	var unreleased []unrel
+	if len(mustRelease) > 0 {
+		grace := time.After(time.Duration(atoi("timeout_ms")) * time.Millisecond)
+		pending := mustRelease
+	graceLoop:
+		for len(pending) > 0 {
+			select {
+			case <-grace:
+				break graceLoop
+			case <-events:
+			case <-time.After(time.Millisecond):
+			}
+			var still []unrel
+			for _, u := range pending {
+				if threads[byName[u.Writer]].End == 0 {
+					still = append(still, u)
+				}
+			}
+			pending = still
+		}
+		unreleased = pending
 	}
 	allDone := make(chan struct{})
 	go func() { wg.Wait(); close(allDone) }()
@@ -423,7 +489,7 @@ wait:
 	}
 	var sb bytes.Buffer
 	json.NewEncoder(&sb).Encode(map[string]interface{}{"threads": outs, "stuck": stuck, "events": log, "final": final, "final_flushed": finalFlushed, "final_reopened": finalReopened, "flushes_in_free_run": nflush,
-		"quiet_timeouts": quietTimeouts, "unfinished_at_free_run": unfinishedAtFreeRun})
+		"quiet_timeouts": quietTimeouts, "unfinished_at_free_run": unfinishedAtFreeRun, "must_release": mustRelease, "unreleased": unreleased})
 	os.Stdout.Write(sb.Bytes())
 	if len(stuck) > 0 {
 		os.Exit(3) // leave the blocked goroutines behind
